@@ -70,21 +70,34 @@ def fill_schema(cinco, schema, d, root, validators):
         cinco.validator(schema)(fn)
 
 
-def build_schema_topdown(cinco, d, root=None, validators=None):
+_SHARED = {}
+
+
+def build_schema_topdown(cinco, d, root=None, validators=None, _top=True):
     """Build the schema the way applications do: parents are bound before children are added,
-    so that environment prefixes are derived top-down."""
+    so that environment prefixes are derived top-down.  Descriptors carrying the same `shared`
+    tag become ONE Schema object (an application reusing one shape in several places)."""
+    if _top:
+        _SHARED.clear()
+    tag = d.get("shared")
+    if tag and tag in _SHARED:
+        return _SHARED[tag]
     kw = {}
     kw.update(env_kwarg(d.get("senv")))
     if d.get("dynamic"):
         kw["dynamic"] = True
     schema = cinco.Schema(**kw)
+    if tag:
+        _SHARED[tag] = schema
     _fill_topdown(cinco, schema, d, root, validators)
     return schema
 
 
 def _fill_topdown(cinco, schema, d, root, validators):
     for key, f in seq(d["fields"]):
-        if f["kind"] == "schema" and not f.get("ctype"):
+        if f["kind"] == "schema" and not f.get("ctype") and f.get("shared"):
+            setattr(schema, key, build_schema_topdown(cinco, f, root, validators, _top=False))
+        elif f["kind"] == "schema" and not f.get("ctype"):
             kw = {}
             kw.update(env_kwarg(f.get("senv")))
             if f.get("dynamic"):
@@ -95,7 +108,7 @@ def _fill_topdown(cinco, schema, d, root, validators):
             setattr(schema, key, sub)  # bind first ...
             _fill_topdown(cinco, sub, f, root, validators)  # ... then add the children
         elif f["kind"] == "schema":
-            sub = build_schema_topdown(cinco, f, root, validators)
+            sub = build_schema_topdown(cinco, f, root, validators, _top=False)
             typ = cinco.make_type(sub, "T_" + key, key_filename=_keyfile(f, root))
             setattr(schema, key, typ)
         elif f["kind"] == "virtual":
@@ -109,7 +122,7 @@ def _fill_topdown(cinco, schema, d, root, validators):
             else:
                 setattr(schema, key, cinco.VirtualField(lambda cfg: 42, sensitive=bool(f.get("sensitive"))))
         elif f["kind"] == "list" and f["item"]["kind"] == "schema":
-            item = build_schema_topdown(cinco, f["item"], root, validators)
+            item = build_schema_topdown(cinco, f["item"], root, validators, _top=False)
             if f["item"].get("ctype"):
                 item = cinco.make_type(item, "I_" + key, key_filename=_keyfile(f["item"], root))
             setattr(schema, key, cinco.ListField(item, **fieldmap.common_kwargs(f, root)))
